@@ -310,6 +310,11 @@ func cmdCheck(args []string) int {
 					inconclusive++
 					inconclusiveWhy = append(inconclusiveWhy, fmt.Sprintf("%s%v: unknown=%d boundhits=%d errors=%v panics=%v initfail=%v", e.Fn, params, ex.Unknown, ex.BoundHits, ex.Errors, ex.Panics, ex.InitFailures))
 				}
+				if len(ex.InitFailures) > 0 {
+					// a package initialiser that could not be run leaves package variables (e.g. sentinel errors) nil:
+					// nothing this run says can be trusted
+					vacuous++
+				}
 				if len(ex.Reached) == 0 && len(ex.Viol) == 0 {
 					vacuous++
 					inconclusive++
@@ -450,7 +455,7 @@ func cmdCheck(args []string) int {
 		return 1
 	}
 	if vacuous > 0 {
-		fmt.Printf("[%s %s] ERROR: %d harness entr(ies) reached no witness at all (vacuous run): %s\n", prop, tier, vacuous, strings.Join(inconclusiveWhy, " | "))
+		fmt.Printf("[%s %s] ERROR: %d harness entr(ies) vacuous or with failed package initialisers: %s\n", prop, tier, vacuous, strings.Join(inconclusiveWhy, " | "))
 		return 2
 	}
 	if inconclusive > 0 {
